@@ -217,14 +217,29 @@ def eval_case(arg):
     pm = parent_map()
     rnd = random.Random(vseed)
     codes_present = sorted({x.code for x in ds if x.code})
-    for v in range(nvariants):
+    # lines whose error has notes attached (the statement's "and their attached notes")
+    note_lines = sorted({x.line for x in ds if x.file == "main.py" and x.severity == "note"} & set(err_lines))
+    directed = []
+    if note_lines and not force:
+        for ln_d in rnd.sample(note_lines, min(3, len(note_lines))):
+            codes_d = sorted({x.code for x in main_errs if x.line == ln_d and x.code})
+            if codes_d:
+                directed += [("ignore-directed", ln_d, codes_d), ("disable-directed", ln_d, codes_d)]
+    for v in range(nvariants + len(directed)):
         kind = rnd.choice(["ignore", "ignore", "ignore", "disable", "ignore+unused"]) if err_lines else "disable"
         if force:
             kind = force["kind"]
+        dvar = directed[v] if v < len(directed) else None
+        if dvar:
+            kind = "ignore" if dvar[0] == "ignore-directed" else "disable"
         var = {"kind": kind}
+        if dvar:
+            var["directed"] = dvar[0]
         if kind.startswith("ignore"):
             k = rnd.randint(1, min(4, len(err_lines)))
             chosen = sorted(rnd.sample(err_lines, k))
+            if dvar:
+                chosen = [dvar[1]]
             if rnd.random() < 0.3:
                 # also annotate a line WITHOUT errors (must be reported unused under the flag, and change nothing)
                 clean = sorted(ok_lines - {x.line for x in ds if x.file == "main.py"} - {l for r in rec if "span" in r for l in r["span"]})
@@ -234,6 +249,8 @@ def eval_case(arg):
             for ln in chosen:
                 here = sorted({x.code for x in main_errs if x.line == ln and x.code})
                 form = rnd.choice(["bare", "right", "wrong", "right+wrong", "parent", "all"])
+                if dvar:
+                    form = "all"
                 if not here:
                     form = rnd.choice(["bare", "wrong"])
                 if form == "bare":
@@ -257,16 +274,19 @@ def eval_case(arg):
             warn = kind == "ignore+unused" or rnd.random() < 0.5
             # the option is given as an inline `# mypy:` comment on a new LAST line: no line shifts, and the
             # typeshed seed cache stays valid (a command-line per-module option would re-check all of typeshed)
+            no_unused = warn and not dvar and rnd.random() < 0.25
             if warn:
-                vfiles["main.py"] = vfiles["main.py"].rstrip("\n") + "\n# mypy: warn-unused-ignores\n"
+                vfiles["main.py"] = vfiles["main.py"].rstrip("\n") + "\n# mypy: warn-unused-ignores" + (", disable-error-code=\"unused-ignore\"" if no_unused else "") + "\n"
             var["ann"] = {str(k): v for k, v in ann.items()}
-            var["flags"] = list(flags) + (["--warn-unused-ignores"] if warn else [])
+            var["flags"] = list(flags) + (["--warn-unused-ignores"] if warn else []) + (["--disable-error-code", "unused-ignore"] if no_unused else [])
+            if no_unused:
+                var["no_unused"] = True
             out2, err2, st2, _ = run_mypy(vfiles, flags)
         else:
             if not codes_present:
                 continue
             subs = [c for c in codes_present if c in pm]
-            if subs and rnd.random() < 0.5 and not force:
+            if subs and rnd.random() < 0.5 and not force and not dvar:
                 # disable the parent code but explicitly enable one of its sub-codes: enable overrides disable
                 sub = rnd.choice(subs)
                 var["kind"] = "disable-parent-enable-sub"
@@ -282,6 +302,8 @@ def eval_case(arg):
             c = rnd.choice(codes_present)
             if force and force.get("code"):
                 c = force["code"]
+            if dvar:
+                c = rnd.choice(dvar[2])
             var["code"] = c
             var["flags"] = list(flags) + ["--disable-error-code", c]
             vfiles = dict(files)
@@ -393,7 +415,7 @@ def judge(run: Run, res) -> None:
     for var in res["variants"]:
         run.count()
         V = [diag.Diag(*t) for t in var["ds"]]
-        case = dict(case0, variant={k: var[k] for k in ("kind", "ann", "code", "sub", "flags") if k in var})
+        case = dict(case0, variant={k: var[k] for k in ("kind", "ann", "code", "sub", "flags", "directed", "no_unused") if k in var})
         if var["st"] not in (0, 1, 2) or "Traceback" in var["err"] or "INTERNAL ERROR" in var["err"]:
             run.label("crashed_variant_skipped")
             continue
@@ -484,6 +506,13 @@ def judge(run: Run, res) -> None:
         may_remove = [k for k in Bk if k in suppressed_keys and any(suppressed_keys[k])]
         unknown_base = [k for k in Bk if k not in suppressed_keys]
         warn_unused = "--warn-unused-ignores" in var["flags"] or "--strict" in var["flags"]
+        if var.get("no_unused"):
+            # the flag is on but the unused-ignore code is disabled for the module: none may be reported
+            left = [k for k in Vk if k[5] == "unused-ignore" and k[0] == "main.py"]
+            if left:
+                run.report("unused-ignore|reported-although-code-disabled", case, "--warn-unused-ignores with the unused-ignore code disabled still reports %s" % (left[:3],))
+            warn_unused = False
+            Vk = [k for k in Vk if not (k[5] == "unused-ignore" and k[0] == "main.py")]
         # expected additions
         exp_unused_lines = {}
         for ln, cs in ann.items():
@@ -551,6 +580,20 @@ def judge(run: Run, res) -> None:
                 cs = ann.get(k[1])
                 sg = "under-suppression|%s|%s" % (k[5] or "nocode", "note" if k[3] == "note" else "error")
                 report_if_stable(sg, case, "diagnostic should be suppressed by the ignore comments %s but is still reported: %s" % (var["ann"], k))
+        # (2b) independent of the internal code a note carries: in a directed variant (the comment lists ALL codes of the
+        # errors on its line) every code-less note that the baseline prints directly after an error of that line, on that
+        # line, is part of that error's message and must be gone (a `reveal_type` note is a statement of its own)
+        if var.get("directed") == "ignore-directed":
+            for ln in ann:
+                run_after_error = False
+                for k in Bk:
+                    if k[0] != "main.py" or k[1] != ln:
+                        run_after_error = False
+                        continue
+                    if k[3] == "error":
+                        run_after_error = True
+                    elif run_after_error and k[3] == "note" and k[5] is None and not k[4].startswith("Revealed") and k in Vk:
+                        report_if_stable("under-suppression|attached-note-left-behind|%s" % norm_msg(k[4]), case, "the comment on line %d lists every code of its errors (%s), the errors are gone but a note printed as part of them remains: %s" % (ln, ann[ln], k))
         # (3) additions are exactly unused-ignore errors / 'not covered' notes on annotated lines
         for k in added:
             if k[5] == "unused-ignore" and k[3] == "error" and k[0] == "main.py":
@@ -603,13 +646,31 @@ def run(run: Run) -> None:
     q = run.tier == "quick"
     run.rule = (
         "programs: check-*.test corpus cases with >=1 error (seeded sample in quick, all in thorough); per program a baseline (observer records every reported raw ErrorInfo with its origin span) and %d variants: "
-        "type: ignore comments (bare / right code / all codes / wrong code / [right, wrong] / parent code) on a random subset of error lines (plus sometimes a clean line), with/without --warn-unused-ignores, or --disable-error-code X for a code present. "
+        "type: ignore comments (bare / right code / all codes / wrong code / [right, wrong] / parent code) on a random subset of error lines (plus sometimes a clean line), with/without --warn-unused-ignores (sometimes together with the unused-ignore code disabled: then none may be reported), or --disable-error-code X for a code present; when an error line carries notes, two directed variants come first: all its codes in an ignore comment, and one of its codes disabled (the notes must go with their error and nothing else may change). Quick: a deterministic set cover of programs such that every note text the test data expects next to an error occurs in one of them, plus 100 seeded random programs. "
         "Reference model: suppressed iff non-blocking and an annotated line lies in the origin span with matching code (bare=all, sub-code matches parent). Non-trivial: variant annotates a line carrying >=2 diagnostics, or suppresses a multi-line-span error or a note, and other diagnostics remain; disable variants where other diagnostics remain." % (4 if q else 6)
     )
     run.assumptions = ["only main.py is annotated", "variants in which one origin span covers two annotated lines are skipped (counted)", "message text of unused-ignore errors is not compared, only line/code"]
     rnd = random.Random(run.seed)
     cases = [c for c in corpus.load() if "main.py" in c.files and "# mypy:" not in c.files["main.py"]]
-    sel = rnd.sample(cases, 200 if q else len(cases))
+    if q:
+        # every note text the test data expects next to an error is covered by at least one sampled program
+        # (greedy set cover over the normalised note texts; deterministic), plus a seeded random sample of the rest
+        noted = sorted((c for c in cases if c.notes), key=lambda c: c.name)
+        covered: set = set()
+        cover = []
+        remaining = {i: set(c.notes) for i, c in enumerate(noted)}
+        while remaining:
+            i = max(remaining, key=lambda j: (len(remaining[j] - covered), -j))
+            if not remaining[i] - covered:
+                break
+            covered |= remaining.pop(i)
+            cover.append(noted[i])
+        run.label("note_texts_covered", len(covered))
+        run.label("programs_in_note_cover", len(cover))
+        names = {c.name for c in cover}
+        sel = cover + rnd.sample([c for c in cases if c.name not in names], 100)
+    else:
+        sel = rnd.sample(cases, len(cases))
     work = []
     for c in sel:
         fl = drop_flags(corpus.safe_flags(c.flags), ("--show-", "--hide-", "--pretty", "--no-pretty", "--no-error-summary", "--error-summary", "--soft-error-limit", "--warn-unused-ignores", "--disable-error-code", "--enable-error-code", "--python-version"))
